@@ -40,6 +40,7 @@ type Event struct {
 	Obs    []ViewObs  `json:"obs"`
 	Pf     int        `json:"pf"`
 	Allocs int        `json:"allocs"`
+	Noobs  int        `json:"noobs"`
 }
 
 const Sentinel = 111
@@ -84,6 +85,8 @@ type World struct {
 	Stamp   int64
 	// Silent suppresses logging (used for setup replays in allocation re-measurement)
 	Silent bool
+	// NoObs: do not project the views (events recorded inside a concurrent phase; only results are judged)
+	NoObs bool
 }
 
 func NewWorld(path string) (*World, error) {
@@ -144,10 +147,13 @@ func (w *World) emit(e *Event) {
 	if e.Map == nil {
 		e.Map = [][2]int64{}
 	}
-	if e.Op != "Reset" {
+	if e.Op != "Reset" && !w.NoObs {
 		e.Obs, e.Pf = w.project()
 	} else {
 		e.Obs = []ViewObs{}
+	}
+	if w.NoObs {
+		e.Noobs = 1
 	}
 	e.Tid = w.tid
 	e.Cnt = clampInt(e.Cnt)
@@ -340,11 +346,7 @@ func (w *World) Convert(fn string, s, d int) string {
 	}
 	m := SampleMap(fn, src, dst.Ty(), n)
 	cnt := -1
-	res := run(func() {
-		begin()
-		cnt = Convert(fn, src, dst)
-		end()
-	})
+	res := run(func() { cnt = Convert(fn, src, dst) }) // measured inside the dispatch, around the library call only
 	w.emit(&Event{Op: "Convert", Fn: fn, Args: []int{s + 1, d + 1}, Map: m, Res: res, Cnt: cnt, Allocs: lastAllocs})
 	return res
 }
@@ -385,4 +387,9 @@ func (w *World) ChanShape(v, c int) {
 func (w *World) Drop(v int) {
 	w.Views = append(w.Views[:v:v], w.Views[v+1:]...)
 	w.emit(&Event{Op: "Drop", Args: []int{v + 1}, Res: "ok", Cnt: -1, Allocs: -1})
+}
+
+// Observe logs the projection of every live view without calling anything else.
+func (w *World) Observe() {
+	w.emit(&Event{Op: "Observe", Res: "ok", Cnt: -1, Allocs: -1})
 }
